@@ -1,14 +1,16 @@
 (* C16 — export then import reproduces the project; nothing dropped, merged or misplaced.
-   This file only states theorems; proofs live in SV.C16Proofs.  Model: SV.Export. *)
+   This file only states theorems; proofs live in SV.C16Proofs / C16Frame / C16Schema / C16Analyse.
+   Model: SV.Export (export_model, import_model and their parts, written after signac/import_export.py). *)
 From Coq Require Import String Ascii.
-From SV Require Import Base Json MD5 Canon Export CorrC16 C16Proofs.
+From SV Require Import Base Json MD5 Canon Export CorrC16 C16Frame C16Schema C16Analyse C16Proofs.
 Local Open Scope N_scope.
 
-(* ---- "export rejects non-unique or leaf/node-conflicting paths".
-   FULL STATEMENT (false of the faithful model, see the _refuted theorems below):
+(* ====================================================================================================
+   1.  "export rejects non-unique or leaf/node-conflicting paths"
+   FULL STATEMENT (false of the faithful model, see the _refuted theorems):
      forall o jobs p ds, export_paths o jobs p = ROk ds -> locs_unique ds = true /\ locs_prefix_free ds = true.
    PROVED: the same conclusion outside the three input classes F7 (no check at all for path=None/False),
-   F15 (order dependent leaf/node check) and F20 (checks compare raw strings). *)
+   F15 (leaf/node check only looks at earlier paths) and F20 (both checks compare raw strings). *)
 Theorem C16_accepted_paths_consistent_partial : forall o jobs p ds,
   export_paths o jobs p = ROk ds ->
   match p with PNone | PFalse => has_dup ds = false | _ => True end ->
@@ -35,6 +37,45 @@ Theorem C16_paths_checked_refuted_F15 :
 Proof. exact f15_witness. Qed.
 Print Assumptions C16_paths_checked_refuted_F15.
 
+(* ====================================================================================================
+   2.  the round trip.
+   FULL STATEMENT (false of the faithful model: F6, F18, F21 and the consequences of F7/F15/F20):
+     forall o jobs k p, let e := export_model o jobs k p in eo_exn e = None ->
+       let i := import_model o SchNone (eo_art e) (dst_init []) in
+       io_exn i = None /\ fs_eqb (io_dst i) (expected_dst [] jobs) = true.
+   PROVED (partial): the step the defects live in - "which archive directory becomes which job" - is
+   exact for zip and tar archives whenever the job roots are prefix-free in the sense of the skipping
+   test the analyser uses (STRING prefixes for zip, iterated dirname for tar), no other archive
+   directory is recognised by the schema function, and the ids are new and distinct.  The file-level
+   copy and the directory crawl are covered by the correspondence only (see notes/C16.md). *)
+Theorem C16_export_import_roundtrip_partial_zip_mapping :
+  forall o sch ms dst0 (roots : list (str * json)) names,
+  (forall r r', In r (List.map fst roots) -> In r' (List.map fst roots) -> startswith r r' = true -> r = r') ->
+  NoDup (List.map fst roots) ->
+  (forall r sp, In (r, sp) roots -> arch_schema_fn o sch (zip_read_sp o ms) r = ROk (Some sp)) ->
+  (forall x, ~ In x (List.map fst roots) -> arch_schema_fn o sch (zip_read_sp o ms) x = ROk None) ->
+  (forall r sp, In (r, sp) roots -> fs_exists (job_dir (job_id_of o sp)) dst0 = false) ->
+  NoDup (List.map (fun r => job_id_of o (snd r)) roots) ->
+  NoDup names ->
+  analyse o (arch_schema_fn o sch (zip_read_sp o ms)) (fun name skip => existsb (zip_under name) skip) false names dst0
+  = ROk (expected_maps o roots names).
+Proof. exact zip_mapping_exact. Qed.
+Print Assumptions C16_export_import_roundtrip_partial_zip_mapping.
+
+Theorem C16_export_import_roundtrip_partial_tar_mapping :
+  forall o sch ms dst0 (roots : list (str * json)) names,
+  (forall r r' n, In r (List.map fst roots) -> In r' (List.map fst roots) -> Nat.iter (Datatypes.S n) dirname r <> r') ->
+  NoDup (List.map fst roots) ->
+  (forall r sp, In (r, sp) roots -> arch_schema_fn o sch (tar_read_sp o ms) r = ROk (Some sp)) ->
+  (forall x, ~ In x (List.map fst roots) -> arch_schema_fn o sch (tar_read_sp o ms) x = ROk None) ->
+  (forall r sp, In (r, sp) roots -> fs_exists (job_dir (job_id_of o sp)) dst0 = false) ->
+  NoDup (List.map (fun r => job_id_of o (snd r)) roots) ->
+  NoDup names ->
+  analyse o (arch_schema_fn o sch (tar_read_sp o ms)) (fun name skip => str_mem (dirname name) skip) true names dst0
+  = ROk (expected_maps o roots names).
+Proof. exact tar_mapping_exact. Qed.
+Print Assumptions C16_export_import_roundtrip_partial_tar_mapping.
+
 Theorem C16_roundtrip_refuted_F6 :
   let o := orc f6_jobs in
   let e := export_model o f6_jobs KZip PNone in
@@ -45,15 +86,6 @@ Theorem C16_roundtrip_refuted_F6 :
       /\ contained (io_dst i) = false).
 Proof. exact f6_witness. Qed.
 Print Assumptions C16_roundtrip_refuted_F6.
-
-Theorem C16_import_never_overwrites_refuted_zip :
-  let o := orc (j_a1 :: f6o_jobs) in
-  let e := export_model o f6o_jobs KZip f6o_spec in
-  eo_exn e = None
-  /\ (let i := import_model o SchNone (eo_art e) (dst_init [j_a1]) in
-      io_exn i = None /\ pre_untouched [j_a1] (io_dst i) = false).
-Proof. exact f6_overwrite_witness. Qed.
-Print Assumptions C16_import_never_overwrites_refuted_zip.
 
 Theorem C16_roundtrip_refuted_F18 :
   let o := orc [j_a1] in
@@ -66,6 +98,28 @@ Theorem C16_roundtrip_refuted_F18 :
 Proof. exact f18_witness. Qed.
 Print Assumptions C16_roundtrip_refuted_F18.
 
+(* ====================================================================================================
+   3.  export leaves the source unchanged and writes only beneath its target.
+   The directory writer is run on an ARBITRARY initial file system f (it may contain the source
+   project); [export_frame f g]: every path not below the target is unchanged, or is a missing parent
+   directory of the target that has been created.
+   FULL STATEMENT (false: F19): the same for every destination string.
+   PROVED: for destinations that are [dst_safe] (every path os.makedirs / copytree visits lies in
+   the target or is one of its parents).  The zip / tar writers of the model write no file system
+   at all (their artefact is the member list), so containment is by construction there. *)
+Theorem C16_export_contained_partial : forall jds f,
+  forallb (fun jd => dst_safe (snd jd)) jds = true ->
+  export_frame f (p_val (fold_partial2 export_dir_step jds f)).
+Proof. exact export_dir_contained. Qed.
+Print Assumptions C16_export_contained_partial.
+
+Theorem C16_export_src_unchanged_partial : forall jds f p n,
+  forallb (fun jd => dst_safe (snd jd)) jds = true ->
+  is_prefix TARGET p = false -> fs_get p f = Some n ->
+  fs_get p (p_val (fold_partial2 export_dir_step jds f)) = Some n.
+Proof. exact export_src_unchanged. Qed.
+Print Assumptions C16_export_src_unchanged_partial.
+
 Theorem C16_export_contained_refuted_F19 :
   let js := [j_up; j_a2] in
   let e := export_model (orc js) js KDir PNone in
@@ -74,16 +128,114 @@ Theorem C16_export_contained_refuted_F19 :
 Proof. exact f19_witness. Qed.
 Print Assumptions C16_export_contained_refuted_F19.
 
-(* the job ids in the witnesses are the ids signac computes (Canon.calc_id, C01) *)
+(* ====================================================================================================
+   4.  import never overwrites an existing job and never writes outside job directories.
+   PROVED for directory and tar origins, for EVERY schema (None, string, callable), every archive
+   content and every state of the importing project; REFUTED for zip origins (F6). *)
+Theorem C16_import_never_overwrites_partial : forall o sch a d0,
+  (match a with AZip _ => False | _ => True end) ->
+  forall id p, fs_exists (job_dir id) d0 = true -> is_prefix (job_dir id) p = true ->
+  fs_get p (io_dst (import_model o sch a d0)) = fs_get p d0.
+Proof. exact import_never_overwrites_dir_tar. Qed.
+Print Assumptions C16_import_never_overwrites_partial.
+
+Theorem C16_import_contained_partial : forall o sch a d0,
+  (match a with AZip _ => False | _ => True end) ->
+  forall p, fs_get p (io_dst (import_model o sch a d0)) <> fs_get p d0 ->
+  (p = WS /\ fs_get p d0 = None) \/ exists id, is_job_id id = true /\ is_prefix (job_dir id) p = true.
+Proof. exact import_contained_dir_tar. Qed.
+Print Assumptions C16_import_contained_partial.
+
+Theorem C16_import_never_overwrites_refuted_zip :
+  let o := orc (j_a1 :: f6o_jobs) in
+  let e := export_model o f6o_jobs KZip f6o_spec in
+  eo_exn e = None
+  /\ (let i := import_model o SchNone (eo_art e) (dst_init [j_a1]) in
+      io_exn i = None /\ pre_untouched [j_a1] (io_dst i) = false).
+Proof. exact f6_overwrite_witness. Qed.
+Print Assumptions C16_import_never_overwrites_refuted_zip.
+
+(* ====================================================================================================
+   5.  a schema string parses back the path layout it describes (word-like strings, integers,
+   booleans; plain decimals under the two library facts stated in [vt_float]: repr() wrote
+   sign? digits '.' digits and float() reads it back).
+   Layout: "lit{key:type}lit{key:type}..." with flat, distinct keys; every literal but the first
+   starts with '/'.  (Nested keys, and literals that do not start with '/', are covered by the
+   correspondence only.) *)
+Theorem C16_schema_string_roundtrip : forall o its,
+  items_ok o true its ->
+  Forall flat_key (List.map it_key its) -> NoDup (List.map it_key its) ->
+  parse_path (fields_of its) (layout_text (fields_of its) (texts_of its)) = ROk (Some (sp_of its)).
+Proof. exact schema_string_roundtrip. Qed.
+Print Assumptions C16_schema_string_roundtrip.
+
+(* the path in that theorem is the path export writes for the corresponding format string ... *)
+Theorem C16_schema_parses_exported_path : forall o jobs j its,
+  items_ok o true its ->
+  Forall flat_key (List.map it_key its) -> NoDup (List.map it_key its) ->
+  Forall (fun i => has_brace (it_lit i) = false) its ->
+  Forall (fun i => get_path (j_sp j) [it_key i] = Some (it_val i)) its ->
+  exists path, fmt_path o jobs (segs_of its) j = ROk path
+               /\ parse_path (fields_of its) path = ROk (Some (sp_of its)).
+Proof. exact schema_parses_exported_path. Qed.
+Print Assumptions C16_schema_parses_exported_path.
+
+(* ... and the fields are what _convert_schema_path_to_regex reads out of the schema string *)
+Theorem C16_schema_compile_text : forall its,
+  Forall (fun i => has_brace (it_lit i) = false /\ it_key i <> [] /\ forallb is_keych (it_key i) = true) its ->
+  Forall (fun i => forallb lit_safe (it_lit i) = true) its ->
+  NoDup (List.map it_key its) ->
+  Forall (fun i => match it_key i with c :: _ => is_digit c = false | [] => False end) its ->
+  schema_compile (schema_text its) = ROk (fields_of its).
+Proof. exact schema_compile_text. Qed.
+Print Assumptions C16_schema_compile_text.
+
+(* ====================================================================================================
+   6.  the witnesses use genuine job ids (Canon.calc_id, C01) *)
 Theorem C16_witness_ids_genuine :
   List.map (fun j => job_id_of (orc []) (j_sp j)) [j_a1; j_a1s; j_a10; j_a100; j_a2; j_up]
   = List.map j_id [j_a1; j_a1s; j_a10; j_a100; j_a2; j_up].
 Proof. exact witness_ids. Qed.
 Print Assumptions C16_witness_ids_genuine.
 
-(* ---- licence for the correspondence step (partial: source / uniqueness / leaf-node clauses) *)
+(* ====================================================================================================
+   7.  licence for the correspondence step.
+   FULL STATEMENT: mismatch_C16 c = false -> known_tag c = 0 (no defect class in the input) -> holds_C16 c = true.
+   PROVED (partial): the source / uniqueness / leaf-node clauses.  The export-containment, no-overwrite
+   and import-containment clauses follow from theorems 3 and 4 at the level of fs_get (the oracle
+   compares sorted listings); the round-trip clause rests on the correspondence. *)
 Theorem C16_model_holds_partial : forall c,
   mismatch_C16 c = false -> cls_F7 c = false -> cls_F15 c = false -> cls_F20 c = false ->
   h_src c = true /\ h_unique c = true /\ h_leafnode c = true.
 Proof. exact model_holds_paths. Qed.
 Print Assumptions C16_model_holds_partial.
+
+(* ====================================================================================================
+   non-vacuity: the hypotheses above are satisfiable by concrete, non-trivial inputs *)
+Example C16_example_dst_safe :
+  dst_safe (q "a/1") = true /\ dst_safe (q "k/p/a/x y") = true /\ dst_safe (q "../zz") = false /\ dst_safe (q "a/../..") = false.
+Proof. exact dst_safe_examples. Qed.
+
+Example C16_example_items : items_ok (orc []) true ex_items.
+Proof. exact ex_items_ok. Qed.
+
+Example C16_example_schema :
+  schema_text ex_items = q "a/{a:int}/b/{b:str}/c/{c:bool}"
+  /\ schema_compile (q "a/{a:int}/b/{b:str}/c/{c:bool}") = ROk (fields_of ex_items)
+  /\ parse_path (fields_of ex_items) (q "a/-10/b/x_1/c/True") = ROk (Some (sp_of ex_items))
+  /\ parse_path (fields_of ex_items) (q "a/-10/b/x 1/c/True") = ROk None.
+Proof. exact schema_example. Qed.
+
+Example C16_example_mapping :
+  let o := orc [j_a1; j_a2] in
+  let e := export_model o [j_a1; j_a2] KZip PNone in
+  match eo_art e with
+  | AZip ms =>
+      let names := ssort true (sdedup (List.map dirname (List.map fst ms))) in
+      names = [q "a/1"; q "a/2"]
+      /\ analyse o (arch_schema_fn o SchNone (zip_read_sp o ms)) (fun name skip => existsb (zip_under name) skip) false names (dst_init [])
+         = ROk (expected_maps o ex_roots names)
+      /\ fs_eqb (io_dst (import_model o SchNone (eo_art e) (dst_init []))) (expected_dst [] [j_a1; j_a2]) = true
+  | _ => False
+  end.
+Proof. exact mapping_example. Qed.
